@@ -139,7 +139,7 @@ func checkC20(c C20Case, r *Rec) *Violation {
 	// variables of types the engine does not take (it normalises the listed integer kinds and nothing
 	// else): handed over all the same, they can only be ignored
 	if c.Seed%3 == 0 {
-		for _, mm := range []map[string]interface{}{{"zu_uint": uint(5)}, {"zm_month": time.Month(3)}, {"zf_float": 2.5}, {"zs_str": "x"}, {"zb_named": c20NamedBool(true)}, {"zi_named": c20NamedInt(4)}} {
+		for _, mm := range []map[string]interface{}{{"zu_uint": uint(5)}, {"zm_month": time.Month(3)}, {"zf_float": 2.5}, {"zs_str": "x"}, {"zb_named": c20NamedBool(true)}, {"zi_named": c20NamedInt(4)}, {"zn_nil": nil}} {
 			opts = append(opts, eval.GenVariables(mm))
 		}
 	}
